@@ -292,6 +292,7 @@ class FetchStream(Stream):
              ["s", i]       source i parsed from case["s"][i] (one object per case: marks persist over steps)
              ["sd", i]      a fresh parse of source i with every disabled object removed
              ["t", text]    a fresh parse of a literal text
+             ["w", i]       source i spliced under the master's first scope name as an include inside a scope would do
              ["r", j]       the result scope of step j (the object itself)
              ["p", j]       step j's result printed with as_str() and parsed again
        Every step is one model request whose inputs are the implementation's own objects at that
@@ -323,6 +324,16 @@ class FetchStream(Stream):
             return strip_disabled_objs(self.fp.parse(input_string=case["s"][v]))
         if k == "t":
             return self.fp.parse(input_string=v)
+        if k == "w":
+            # source v spliced under a scope the way "include file" inside a scope does it: the objects of a separately
+            # parsed document become the children of the scope and keep their own parent links (no "$" in such sources)
+            if has_dollar(case["s"]):
+                return None
+            inner = self.fp.parse(input_string=case["s"][v])
+            name = next((o.name for o in env_objs["m"].objects if o.is_scope and not o.is_disabled and "." not in o.name), "zz")
+            outer = self.fp.parse(input_string="%s {\n}\n" % name)
+            outer.objects[0].objects = list(inner.objects)
+            return outer
         if k == "r":
             return results[v]
         if k == "p":
@@ -363,6 +374,31 @@ class FetchStream(Stream):
     def ckey(self, case):
         return json.dumps(case, sort_keys=True)
 
+    def _dup_master(self, text):
+        """True if some scope of the master has two active siblings of one name (masters that declare a parameter
+        twice are compared with the model as parsed masters only)."""
+        cache = self.__dict__.setdefault("_dupcache", {})
+        r = cache.get(text)
+        if r is None:
+            def dup(objs):
+                first = {}
+                for o in objs:
+                    if o.is_disabled:
+                        continue
+                    f = first.setdefault(o.name, o)
+                    if f is not o:
+                        return True
+                    if o.is_scope and dup(o.objects):
+                        return True
+                return False
+            try:
+                r = dup(self.fp.parse(input_string=text).objects)
+            except BaseException as e:  # noqa
+                reraise_control(e)
+                r = True
+            cache[text] = r
+        return r
+
     # -- model
     def requests(self, case, impl_obs):
         reqs = self.stash.get(self.ckey(case), [])
@@ -376,11 +412,18 @@ class FetchStream(Stream):
         out = []
         it = iter(replies)
         unmodelled = False
-        for o in impl_obs:
+        steps = self.plan(case)
+        for idx, o in enumerate(impl_obs):
             if o == ["skipped"]:
                 out.append(o)
                 continue
-            m = model_step_obs(next(it))
+            rep = next(it)
+            if idx < len(steps) and steps[idx].get("lenient_oracle") and self._dup_master(case["m"]):
+                # a fetch result re-used as the master: compared with the model for masters with unique sibling names only
+                # (a master declaring one name twice has no agreed meaning once it holds templates and instances)
+                out.append(o)
+                continue
+            m = model_step_obs(rep)
             if m == "UNMODELLED":
                 unmodelled = True
             elif m[0] == "ok" and m[2] == "UNMODELLED":
